@@ -23,6 +23,7 @@ func checkCli(c Case) error {
 	case "graft":
 		tips := c.Tree.TipNodes()
 		tip := tips[c.Sel%len(tips)].Name
+		c.Other = keepName(c, tip)
 		return cli.DifferentialIn([]string{"graft", "-c", "graft.nw", "-l", tip}, text, map[string]string{"graft.nw": ref.Write(c.Other) + "\n"}, c15out(c), c15in(c), func() (string, error) {
 			t, err := load(c.Tree, false)
 			if err != nil {
